@@ -286,6 +286,53 @@ func metaShapes(part int) {
 	ctx.NontrivialN(int64(derived))
 }
 
+// longLengthFields: meta messages whose length field has up to 12
+// continuation bytes (no constructor or reader produces them; the accessors
+// must still not panic), with and without payload.
+func longLengthFields() {
+	conts := [][]byte{{0x80}, {0x81}, {0xFF}, {0x80, 0xFF}}
+	for _, typ := range []byte{0x00, 0x01, 0x03, 0x05, 0x09, 0x20, 0x2F, 0x51, 0x54, 0x58, 0x59, 0x60, 0x7F} {
+		for k := 0; k <= 12; k++ {
+			for _, cp := range conts {
+				for _, term := range []byte{0x00, 0x01, 0x05, 0x7F} {
+					for _, pl := range []int{0, 1, 5} {
+						if k >= 3 && typ >= 0x01 && typ <= 0x09 && (cp[0] != 0x80 || len(cp) > 1) {
+							continue // would declare (and make String allocate) 2^21 bytes or more
+						}
+						b := []byte{0xFF, typ}
+						for i := 0; i < k; i++ {
+							b = append(b, cp[i%len(cp)])
+						}
+						b = append(b, term)
+						for i := 0; i < pl; i++ {
+							b = append(b, byte(0x41+i))
+						}
+						judgeSMF(b)
+						judgeMidi(b)
+					}
+				}
+			}
+			// a one followed by zero digits: 2^(7k), which is 0 modulo 2^32 from k = 5 on
+			// (small for a 32-bit decoder, astronomically large or negative for a wider one)
+			if k == 1 || k == 2 || k >= 5 {
+				for _, pl := range []int{0, 1, 5} {
+					b := []byte{0xFF, typ, 0x81}
+					for i := 1; i < k; i++ {
+						b = append(b, 0x80)
+					}
+					b = append(b, 0x00)
+					for i := 0; i < pl; i++ {
+						b = append(b, byte(0x41+i))
+					}
+					judgeSMF(b)
+					judgeMidi(b)
+				}
+			}
+		}
+	}
+	ctx.NontrivialN(int64(derived))
+}
+
 func constructed() {
 	texts := []string{"", "a", string(make([]byte, 127)), string(make([]byte, 128)), string(make([]byte, 20000))}
 	var ms []smf.Message
@@ -323,6 +370,7 @@ func main() {
 	ctx.Jobs("long", len(alpha12), func(j int) { long(j) })
 	ctx.Jobs("meta-shapes", 16, func(j int) { metaShapes(j) })
 	ctx.Jobs("constructed", 1, func(int) { constructed() })
+	ctx.Jobs("long-length-fields", 1, func(int) { longLengthFields() })
 	ctx.Sample(map[string]interface{}{"bytes": "FF 51 03", "as": "smf.Message", "expect": "meta tempo type, GetMetaTempo must not panic on the missing payload"})
 	ctx.Sample(map[string]interface{}{"bytes": "F2 01", "as": "midi.Message", "expect": "system common; GetSPP rejects (length), no other accessor accepts"})
 	ctx.Guard(ctx.NontrivialCount() > 100000, "too few strings accepted by exactly one accessor: %d", ctx.NontrivialCount())
